@@ -68,7 +68,7 @@ def corpus():
 
 MUTATORS = ["tok_delete", "tok_dup", "tok_swap", "tok_replace", "tok_kw", "tok_type", "amp", "drop_semi",
             "drop_brace", "byte_flip", "byte_insert", "truncate", "crlf", "splice", "dup_decl", "rename_use",
-            "insert_tok", "multibyte", "paren_wrap", "num_edit"]
+            "insert_tok", "multibyte", "paren_wrap", "num_edit", "drop_annot"]
 
 
 def mutate(rng, text, op=None, other=None):
@@ -112,6 +112,20 @@ def mutate(rng, text, op=None, other=None):
         ids = [k for k in idx if toks[k] in "{}()[]"]
         if ids:
             del toks[rng.choice(ids)]
+    elif op == "drop_annot":
+        # remove the type annotation of a variable declaration (`var x: T = e;` -> `var x = e;`): type inference
+        # has to do the work, or fail (E58x)
+        starts = []
+        for k in idx:
+            if toks[k] == "var":
+                rest = [j for j in idx if j > k][:3]
+                if len(rest) == 3 and toks[rest[1]] == ":":
+                    end = next((j for j in idx if j > rest[1] and toks[j] in ("=", ";")), None)
+                    if end is not None:
+                        starts.append((rest[1], end))
+        if starts:
+            a, b = rng.choice(starts)
+            del toks[a:b]
     elif op == "paren_wrap":
         toks[i] = "(" + toks[i] + ")"
     elif op == "num_edit":
